@@ -15,7 +15,7 @@ from datetime import datetime, timedelta, timezone
 from typing import Any, Optional
 
 from mc import rp66 as R
-from mc.schema import KINDS, DEFAULT_LABELS, DTYPE_CODES, DTYPE_SIZES, attr_by_kw, attr_defs, SET_TYPE_TO_KIND
+from mc.schema import KINDS, DEFAULT_LABELS, DTYPE_CODES, DTYPE_SIZES, attr_by_kw, attr_defs, SET_TYPE_TO_KIND, norm_dtype
 
 NUM_CODES = set(range(1, 19))
 FLOAT_CODES = set(range(1, 12))
@@ -102,7 +102,7 @@ class Model:
         elif k == 'dsname':
             self.objs[op['h']].dataset_name = op['value']
         elif k == 'cast':
-            self.objs[op['h']].cast = op['value']['$dtype'] if op['value'] else None
+            self.objs[op['h']].cast = norm_dtype(op['value']['$dtype']) if op['value'] else None
         elif k in ('hc', 'rename'):
             if k == 'rename':
                 self.objs[op['h']].name = op['value']
@@ -164,7 +164,7 @@ class Model:
                     dn = f"{o.name}__{i}"
             o.dataset_name = dn
             cd = kw.pop('cast_dtype', None)
-            o.cast = cd['$dtype'] if cd else None
+            o.cast = norm_dtype(cd['$dtype']) if cd else None
             if o.data is not None:
                 lf.data_dict[dn] = o.data
         for key2, v in kw.items():
